@@ -331,7 +331,11 @@ def prove_stable(ctx, ex13):
 def run(ctx):
     ctx.rule = ("save/load: every one of the 11 dtypes x shapes 1..6 x cell sizes/origins from simple decimals to any "
                 "finite binary64 pattern x no-data extremes/NaN/inf x values over all bit patterns (canonical NaN), "
-                "through from_header, from_stream and from_zip; hand-written headers: key spelling/case/blank runs, "
+                "through every loading path (from_header by header path / data path, from_stream on file objects / StringIO, "
+                "from_zip stored in a sub-directory / deflated at the root), then saved and loaded a second time, and "
+                "held as big-endian items (BYTEORDER M written by Grid.save); hand-written rasters of byte order I and M "
+                "(any finite cell size/origin, key case, field widths, line order, NODATA/NODATA_VALUE) through the same "
+                "loading paths, with and without data file, then saved and reloaded; hand-written headers: key spelling/case/blank runs, "
                 "ULXMAP/XDIM aliases, NODATA/NODATA_VALUE with integer and float tokens, byte orders I/M/other, 20 pixel "
                 "type spellings, valid and invalid NBITS, missing/unparsable/one-token lines, raw data of right and wrong "
                 "length; dictionaries with optional keys removed; clips with corners anywhere inside the extent; "
